@@ -3,6 +3,7 @@ import Driver.Bridge
 import Driver.Abi
 import Driver.C19
 import Driver.C02
+import Driver.C11
 
 /-- global driver state: one slot per stateful model -/
 structure St where
@@ -15,6 +16,7 @@ def stepLine (st : St) (line : String) : St × String :=
   | "C04" :: rest => (st, Driver.C04.step rest)
   | "C19" :: rest => let (s', o) := Driver.C19.step st.c19 rest; ({ st with c19 := s' }, o)
   | "C02" :: rest => let (s', o) := Driver.C02.step st.c02 rest; ({ st with c02 := s' }, o)
+  | "C11" :: rest => (st, Driver.C11.step rest)
   | "ABI" :: rest => (st, Driver.Abi.step rest)
   | "BR" :: rest => let (b, o) := Driver.Bridge.step st.bridge rest; ({ st with bridge := b }, o)
   | _ => (st, "bad-op")
